@@ -105,8 +105,13 @@ def generate(rng, tier, idx):
         elif k == 'concat':
             seq = seq + template(rng)
     variant = rng.choice(['plain'] * 6 + ['nofinal', 'crlf', 'trail-ws'])
-    return {'prop': ID, 'mode': 'synthetic', 'order_key': '0', 'seq': seq[:40], 'variant': variant,
-            'verify': rng.random() < 0.7, 'nfaults': nf}
+    sc = {'prop': ID, 'mode': 'synthetic', 'order_key': '0', 'seq': seq[:40], 'variant': variant,
+          'verify': rng.random() < 0.7, 'nfaults': nf}
+    if rng.random() < 0.3:
+        # history on one ManifestFile object: it has loaded (and had authenticated) a well-formed signed message before
+        # this load - nothing of that may survive: neither entries nor the signed flag nor the signature data
+        sc['prime_object'] = True
+    return sc
 
 
 # ------------------------------------------------------------------ M-clearsig
@@ -344,8 +349,16 @@ def exec_synth(sc):
     peer = RecordingPeer()
     m = gemato.manifest.ManifestFile()
     verify = sc.get('verify', True)
+    primed = False
+    if sc.get('prime_object'):
+        r0 = call(lambda: m.load(io.StringIO(build_text(['BS', 'HDR', 'BLANK', 'IGN', 'ENTRY', 'BG', 'BLANK', 'B64', 'EG'], 'plain')),
+                                 verify_openpgp=True, openpgp_env=RecordingPeer()))
+        primed = r0[0] == 'ok' and m.openpgp_signed is True
     r = call(lambda: m.load(io.StringIO(text), verify_openpgp=verify, openpgp_env=peer))
     vs, zone = judge(text, cl, r, m, peer.texts, verify)
+    if primed and not m.openpgp_signed and getattr(m, 'openpgp_signature', None) is not None:
+        vs.append(viol('frame.stale-signature-data', 'an object that had loaded a signed message before reports openpgp_signed=%r but still carries '
+                       'signature data after loading %r' % (m.openpgp_signed, text[:120]), sig='sigdata'))
     return text, cl, r, vs, zone
 
 
